@@ -164,6 +164,14 @@ Lemma cinv_set_toconv st f : Cinv st -> Cinv (set_toconv st f).
 Proof. apply cinv_fields. fields. Qed.
 Lemma cinv_set_masks st a b c : Cinv st -> Cinv (set_masks st a b c).
 Proof. apply cinv_fields. fields. Qed.
+Lemma cinv_after_detach k b st : Cinv st -> Cinv (after_detach k b st).
+Proof.
+  intros H. unfold after_detach. destruct (kf_detachreset k); [exact H|].
+  destruct (b && has_data_tag (tags st)); [|exact H].
+  unfold reopen_data. apply cinv_set_masks, cinv_set_tags, H.
+Qed.
+Lemma cinv_tag_again k p st : Cinv st -> Cinv (tag_again k p st).
+Proof. intros H. unfold tag_again. destruct (kf_detachreset k); [exact H|apply cinv_start_tagging, H]. Qed.
 Lemma cinv_queue_matches st cs m : Cinv st -> Cinv (queue_matches st cs m).
 Proof. apply cinv_fields. fields. Qed.
 Lemma cinv_set_jtag st j : Cinv st -> Cinv (set_jtag st j).
@@ -291,7 +299,7 @@ Proof.
     destruct (d_mark d); [apply cinv_set_tags, H|apply cinv_start_tagging, cinv_set_tags, H].
   - (* ADelTag *) simpl. destruct (tget n (tags st)); [|exact H].
     destruct (referenced n (tags st)); [exact H|].
-    apply cinv_set_tags. apply cinv_fold; [intros; apply cinv_detach; assumption|exact H].
+    apply cinv_tag_again, cinv_set_tags, cinv_after_detach. apply cinv_fold; [intros; apply cinv_detach; assumption|exact H].
   - (* AQuery *) simpl. destruct (tget n (tags st)); [|exact H].
     destruct (complex d && _); [exact H|].
     destruct (refs_ok n d (tags st)); [|exact H].
@@ -304,7 +312,7 @@ Proof.
     apply cinv_start_converter, cinv_start_tagging, cinv_set_tags, H.
   - (* ASetConv *) simpl. destruct (tget n (tags st)); [|exact H].
     match goal with |- context[if ?b then _ else _] => destruct b end; [|exact H].
-    apply cinv_start_converter, cinv_attach_all. apply cinv_fold; [|exact H].
+    apply cinv_start_converter, cinv_tag_again, cinv_attach_all, cinv_after_detach. apply cinv_fold; [|exact H].
     intros s c Hs. destruct (memN c cs); [exact Hs|apply cinv_detach; exact Hs].
   - (* ABodyImport *) simpl. destruct (jimp st) as [j|] eqn:J; [|exact H].
     destruct (ij_resp j); [exact H|].
